@@ -195,7 +195,7 @@ class FrameItem(EFLRItem):
     def known_channel_dtypes_mapping(self) -> dict:
         """Mapping of names of channels of the frame on the data types, if explicitly defined."""
 
-        return {ch.name: ch.cast_dtype for ch in self.channels.value if ch.cast_dtype is not None}
+        return {ch.name: ch.requested_cast_dtype for ch in self.channels.value if ch.requested_cast_dtype is not None}
 
 
 class FrameSet(EFLRSet):
